@@ -746,122 +746,326 @@ func newRun(rep *mbt.Report, mu *sync.Mutex, ti int, tr mbt.Trace) (*run, error)
 
 // ---------------------------------------------------------------------------------------------
 // plain FIFO mempool (gemmill/mempool), specs/txpool/Mempool.tla
+//
+// ReceiveTx takes no pool lock for its checks, so the specification splits it into its atomic steps and runs
+// several submitter processes.  The driver reproduces every interleaving on the real Mempool: each submitter is
+// a goroutine calling the real ReceiveTx, parked (1) in a registered filter - filters run between the cache.Exists
+// check and cache.Push - and (2) at the Gate after cache.Push; Update runs in its own goroutine and is parked at
+// the Gate before refreshMempoolTxs.  Exactly one goroutine runs at a time.
+//   RcvCheck(p,x,r)  start ReceiveTx(x) for p; r = "exist" | "full" | "pass" (parked in the filter)
+//   RcvPush(p,r)     let p continue: r = "exist" (cache.Push refused) | "ok"
+//   RcvAppend(p)     (only with cfg split=true) let p append to the list
+//   UpdCache(B)      start Update(B), parked before the refresh;  UpdRefresh: let it finish
+//   Reap(n), Flush
+
+type mpActor struct {
+	kind    string // "sub" | "upd"
+	stage   string
+	arrived chan string
+	resume  chan struct{}
+	done    chan error
+}
+
+var (
+	mpCur   *mpActor
+	mpSplit bool
+	mpMu    sync.Mutex
+)
+
+func mpCurrent() *mpActor {
+	mpMu.Lock()
+	defer mpMu.Unlock()
+	return mpCur
+}
+
+func mpSet(a *mpActor) {
+	mpMu.Lock()
+	mpCur = a
+	mpMu.Unlock()
+}
+
+type mpBarrier struct{}
+
+func (mpBarrier) CheckTx(tx gtypes.Tx) (bool, error) {
+	if a := mpCurrent(); a != nil && a.kind == "sub" && a.stage == "check" {
+		a.stage = "filter"
+		a.arrived <- "filter"
+		<-a.resume
+	}
+	return true, nil
+}
+
+func mpGate(site string) {
+	a := mpCurrent()
+	if a == nil {
+		return
+	}
+	switch {
+	case site == "mempool.ReceiveTx.afterCachePush" && a.kind == "sub" && mpSplit && a.stage == "push":
+		a.stage = "gate"
+		a.arrived <- "gate"
+		<-a.resume
+	case site == "mempool.Update.beforeRefresh" && a.kind == "upd" && a.stage == "cache":
+		a.stage = "gate"
+		a.arrived <- "gate"
+		<-a.resume
+	}
+}
+
+// mpWait waits until the running actor parks or returns; "blocked" after the timeout (e.g. waiting for the pool lock).
+func mpWait(a *mpActor) (string, error) {
+	select {
+	case w := <-a.arrived:
+		return w, nil
+	case err := <-a.done:
+		a.stage = "done"
+		return "done", err
+	case <-time.After(300 * time.Millisecond):
+		return "blocked", nil
+	}
+}
 
 func runMempool(rep *mbt.Report, ti int, tr mbt.Trace) {
 	conf := viper.New()
-	limit := mbt.Int(tr.Cfg["block_size"])
-	conf.Set("block_size", limit)
+	conf.Set("block_size", mbt.Int(tr.Cfg["block_size"]))
 	conf.Set("mempool_enable_txs_limits", true)
 	mem := mempool.NewMempool(conf)
+	mem.RegisterFilter(mpBarrier{})
+	mpSplit, _ = tr.Cfg["split"].(bool)
+	verifhook.GateFn = mpGate
+	defer func() { verifhook.GateFn = nil; mpSet(nil) }()
 	fail := func(si int, action, kind string, prop bool, key, detail string, want, got interface{}) {
 		rep.Fail(mbt.Failure{Trace: ti, TraceID: tr.ID, Step: si, Action: action, Kind: kind, Property: prop, Key: key, Detail: detail, Want: want, Got: got})
 	}
 	txb := func(v interface{}) []byte { return []byte("verif-mempool-tx-" + mbt.Str(v)) }
 	name := func(b []byte) string { return strings.TrimPrefix(string(b), "verif-mempool-tx-") }
-	committed := map[string]bool{}
-	resub := map[string]bool{}
-	forgotten := map[string]bool{} // committed before an explicit Flush ("remove all transactions from mempool and cache")
-	var held []string // FIFO content according to the replies (independent ledger)
 	model := tr.Cfg["mode"] != "oracle"
+	subs := map[string]*mpActor{}
+	subTx := map[string]string{}
+	var upd *mpActor
+	var updB []string
+	var parked []*mpActor // every actor that may still have to be released at the end
+	committed := map[string]bool{}
+	forgot := map[string]bool{}
+	updating := false
+	var late []chan struct{} // Reap/Flush calls that blocked on the pool lock
+	reapNow := func() ([]string, bool) {
+		ch := make(chan []gtypes.Tx, 1)
+		go func() { ch <- mem.Reap(-1) }()
+		select {
+		case l := <-ch:
+			var o []string
+			for _, b := range l {
+				o = append(o, name(b))
+			}
+			return o, true
+		case <-time.After(300 * time.Millisecond):
+			return nil, false
+		}
+	}
+	aborted := false
 	for si, st := range tr.Steps {
+		if aborted {
+			break
+		}
 		rep.Steps++
 		label := fmt.Sprintf("%s%v", st.A, st.Args)
 		switch st.A {
-		case "Receive":
-			x := mbt.Str(st.Args[0])
-			inPool := false
-			for _, h := range held {
-				if h == x {
-					inPool = true
-				}
-			}
-			err := mem.ReceiveTx(txb(x))
-			got := "ok"
-			if err == mempool.ErrTxInCache {
+		case "RcvCheck":
+			p, x, want := mbt.Str(st.Args[0]), mbt.Str(st.Args[1]), mbt.Str(st.Args[2])
+			a := &mpActor{kind: "sub", stage: "check", arrived: make(chan string, 1), resume: make(chan struct{}, 1), done: make(chan error, 1)}
+			subs[p], subTx[p] = a, x
+			parked = append(parked, a)
+			mpSet(a)
+			go func() { a.done <- mem.ReceiveTx(txb(x)) }()
+			w, err := mpWait(a)
+			got := "pass"
+			switch {
+			case w == "done" && err == mempool.ErrTxInCache:
 				got = "exist"
-			} else if err != nil {
+			case w == "done" && err != nil:
 				got = "full"
+			case w == "done":
+				got = "accepted-without-filter"
+			case w == "blocked":
+				got = "blocked"
 			}
 			rep.Checks++
-			if model && got != mbt.Str(st.Args[1]) {
-				fail(si, label, "mismatch", false, "mempool-reply:"+mbt.Str(st.Args[1])+":"+got, "reply differs from the specification", st.Args[1], got)
+			if model && got != want {
+				fail(si, label, "mismatch", false, "mempool-reply:"+want+":"+got, "ReceiveTx differs from the specification at the Exists/limit check", want, got)
+				aborted = true
 			}
-			if inPool && got == "ok" {
-				fail(si, label, "property", true, "mempool:duplicate-accepted", "a transaction already in the mempool was accepted again: "+x, "exist", got)
-			}
-			if got == "ok" {
-				held = append(held, x)
-				if committed[x] {
-					resub[x] = true
+		case "RcvPush":
+			p, want := mbt.Str(st.Args[0]), mbt.Str(st.Args[1])
+			a := subs[p]
+			if a == nil || a.stage != "filter" {
+				if model {
+					fail(si, label, "error", false, "mempool-not-parked", "submitter is not parked in the filter", nil, nil)
+					aborted = true
 				}
+				break // (engine-made schedules: the real pool already answered this submitter)
 			}
-		case "Reap":
-			n := mbt.Int(st.Args[0])
-			got := mem.Reap(n)
+			mpSet(a)
+			a.stage = "push"
+			a.resume <- struct{}{}
+			w, err := mpWait(a)
+			got := "ok"
+			switch {
+			case w == "done" && err == mempool.ErrTxInCache:
+				got = "exist"
+			case w == "done" && err != nil:
+				got = "err:" + err.Error()
+			case w == "blocked":
+				got = "blocked"
+			}
 			rep.Checks++
-			var gl []string
-			for _, b := range got {
-				gl = append(gl, name(b))
+			if model && got != want {
+				fail(si, label, "mismatch", false, "mempool-reply:"+want+":"+got, "ReceiveTx differs from the specification at cache.Push", want, got)
+				aborted = true
 			}
-			want := held
-			if n >= 0 && n < len(held) {
-				want = held[:n]
+		case "RcvAppend":
+			a := subs[mbt.Str(st.Args[0])]
+			if a != nil && a.stage == "gate" {
+				mpSet(a)
+				a.stage = "append"
+				a.resume <- struct{}{}
+				mpWait(a)
 			}
-			if strings.Join(gl, ",") != strings.Join(want, ",") {
-				fail(si, label, "property", true, "mempool:reap-fifo", "Reap does not return the accepted, uncommitted transactions in arrival order", want, gl)
-			}
-			for _, x := range gl {
-				if committed[x] && !forgotten[x] {
-					if resub[x] {
-						fail(si, label, "property", true, "mempool:reoffer-resubmitted", "Reap offers a transaction a committed block already contained (it was received again after the commit: the dedup cache forgets committed transactions): "+x, nil, nil)
-					} else {
-						fail(si, label, "property", true, "mempool:reoffer-committed", "Reap offers a committed transaction: "+x, nil, nil)
-					}
-				}
-			}
-		case "Update":
+		case "UpdCache":
 			var txs []gtypes.Tx
-			inB := map[string]bool{}
+			updB = nil
 			for _, x := range st.Args[0].([]interface{}) {
 				txs = append(txs, txb(x))
-				inB[mbt.Str(x)] = true
-				committed[mbt.Str(x)] = true
-				delete(resub, mbt.Str(x))
-				delete(forgotten, mbt.Str(x))
+				updB = append(updB, mbt.Str(x))
 			}
-			mem.Update(int64(si+1), txs)
-			var nh []string
-			for _, h := range held {
-				if !inB[h] {
-					nh = append(nh, h)
-				}
+			upd = &mpActor{kind: "upd", stage: "cache", arrived: make(chan string, 1), resume: make(chan struct{}, 1), done: make(chan error, 1)}
+			parked = append(parked, upd)
+			mpSet(upd)
+			u := upd
+			go func() { mem.Update(int64(si+1), txs); u.done <- nil }()
+			mpWait(upd)
+			for _, x := range updB {
+				committed[x] = true
+				delete(forgot, x)
 			}
-			held = nh
+			updating = true
+		case "UpdRefresh":
+			if upd != nil && upd.stage == "gate" {
+				mpSet(upd)
+				upd.stage = "refresh"
+				upd.resume <- struct{}{}
+				mpWait(upd)
+			}
+			// (when the refresh waits for the pool lock held by a parked submitter it completes later: see below)
+		case "Reap":
+			// checked below through reapNow
 		case "Flush":
-			mem.Flush()
-			held = nil
+			ch := make(chan struct{})
+			go func() { mem.Flush(); close(ch) }()
+			select {
+			case <-ch:
+			case <-time.After(300 * time.Millisecond):
+				late = append(late, ch)
+			}
 			for x := range committed {
-				forgotten[x] = true
+				forgot[x] = true
+			}
+		default:
+			fail(si, label, "error", false, "", "unknown action", nil, nil)
+		}
+		if aborted {
+			break
+		}
+		// calls that had to wait for the pool lock (held by a parked submitter) finish as soon as it is free
+		var still []chan struct{}
+		for _, ch := range late {
+			select {
+			case <-ch:
+			case <-time.After(300 * time.Millisecond):
+				still = append(still, ch)
 			}
 		}
+		late = still
+		// an Update whose refresh had to wait for the pool lock finishes as soon as the lock is free
+		if upd != nil && upd.stage == "refresh" {
+			select {
+			case <-upd.done:
+				upd.stage = "done"
+			case <-time.After(300 * time.Millisecond):
+			}
+		}
+		if upd != nil && upd.stage == "done" {
+			updating = false
+		}
+		// ---- properties on the real pool, independent of the model
+		got, ok := reapNow()
+		if !ok {
+			continue // the pool lock is held by a parked goroutine: nothing can be observed (nor offered) now
+		}
 		rep.Checks++
-		if sz := mem.Size(); sz != len(held) {
-			fail(si, label, "property", true, "mempool:size", "Size() differs from the number of accepted, uncommitted transactions", len(held), sz)
-			return
+		seen := map[string]bool{}
+		for _, x := range got {
+			if seen[x] {
+				fail(si, label, "property", true, "mempool:duplicate-queued", fmt.Sprintf("transaction %s is queued twice: Reap offers %v (two concurrent ReceiveTx of the same transaction were both accepted)", x, got), nil, got)
+				aborted = true
+				break
+			}
+			seen[x] = true
+			if committed[x] && !forgot[x] && !updating {
+				fail(si, label, "property", true, "mempool:reoffer-committed", fmt.Sprintf("Reap offers %s although a committed block already contained it (Reap = %v)", x, got), nil, got)
+				aborted = true
+				break
+			}
+		}
+		if sz := mem.Size(); sz != len(got) {
+			fail(si, label, "property", true, "mempool:size", "Size() differs from the number of queued transactions", len(got), sz)
+		}
+		if st.A == "Reap" {
+			n := mbt.Int(st.Args[0])
+			part := mem.Reap(n)
+			want := got
+			if n >= 0 && n < len(got) {
+				want = got[:n]
+			}
+			var pl []string
+			for _, b := range part {
+				pl = append(pl, name(b))
+			}
+			if strings.Join(pl, ",") != strings.Join(want, ",") {
+				fail(si, label, "property", true, "mempool:reap-fifo", "Reap(n) is not the first n queued transactions in arrival order", want, pl)
+			}
 		}
 		if model && st.Post != nil {
 			var want []string
 			for _, x := range st.Post["txs"].([]interface{}) {
 				want = append(want, mbt.Str(x))
 			}
-			var got []string
-			for _, b := range mem.Reap(-1) {
-				got = append(got, name(b))
-			}
 			if strings.Join(got, ",") != strings.Join(want, ",") {
 				fail(si, label, "mismatch", false, "mempool-state", "mempool content differs from the specification", want, got)
-				return
+				aborted = true
 			}
+		}
+	}
+	// release whatever is still parked, in order, and let every goroutine finish
+	for _, a := range parked {
+		for k := 0; k < 3 && a.stage != "done"; k++ {
+			mpSet(a)
+			select {
+			case a.resume <- struct{}{}:
+			default:
+			}
+			select {
+			case <-a.done:
+				a.stage = "done"
+			case <-a.arrived:
+			case <-time.After(200 * time.Millisecond):
+			}
+		}
+	}
+	for _, ch := range late {
+		select {
+		case <-ch:
+		case <-time.After(time.Second):
 		}
 	}
 }
